@@ -14,7 +14,9 @@ import (
 	"go.temporal.io/server/client/history"
 	servercommon "go.temporal.io/server/common"
 	"google.golang.org/grpc"
+	"google.golang.org/grpc/codes"
 	"google.golang.org/grpc/metadata"
+	"google.golang.org/grpc/status"
 	"google.golang.org/protobuf/proto"
 
 	"github.com/temporalio/s2s-proxy/common"
@@ -279,6 +281,74 @@ func TestC07(t *testing.T) {
 		}
 		pp.Stop()
 		e.Count("e2e_lcm_pairs")
+	}
+	// (5) faults while opening the upstream stream (handler level, fake serving cluster): whatever the proxy does when the
+	// serving cluster is briefly unavailable or refuses, EVERY stream-open attempt it makes for LCM shard s carries the
+	// remapped ids (client shard s, server shard ((s-1) mod count)+1): one consistent shard space on every path
+	for _, pr := range [][2]int32{{2, 3}, {3, 2}, {4, 6}, {5, 7}} {
+		local, remote := pr[0], pr[1]
+		L := common.LCM(local, remote)
+		for _, inbound := range []bool{true, false} {
+			count := remote
+			if inbound {
+				count = local
+			}
+			for _, fault := range []string{"unavailable", "unavailable-twice", "refused", "none"} {
+				for s := int32(1); s <= L; s++ {
+					client := newMultiClient()
+					client.opened = make(chan *cliStream, 4)
+					switch fault {
+					case "unavailable":
+						client.openErrFirst = []error{status.Error(codes.Unavailable, "connection refused")}
+					case "unavailable-twice":
+						client.openErrFirst = []error{status.Error(codes.Unavailable, "transport is closing"), status.Error(codes.Unavailable, "transport is closing")}
+					case "refused":
+						client.openErrFirst = []error{status.Error(codes.PermissionDenied, "no")}
+					}
+					lifetime, stop := context.WithCancel(context.Background())
+					dirs := []string{"outbound"}
+					if inbound {
+						dirs = []string{"inbound"}
+					}
+					srv := proxy.NewAdminServiceProxyServer("c07", client, client, proxy.AdminServiceOverrides{}, dirs, func(int32, int32) {},
+						config.ShardCountConfig{Mode: config.ShardCountLCM, LocalShardCount: local, RemoteShardCount: remote},
+						proxy.LCMParameters{LCM: L, TargetShardCount: count}, proxy.RoutingParameters{}, noopLoggers(), nil, lifetime)
+					ctx, cancel := context.WithCancel(metadata.NewIncomingContext(context.Background(), streamMD(7, (s-1)%(local+remote-count)+1, 9, s)))
+					ss := newSrvStream(ctx)
+					done := make(chan error, 1)
+					go func() { done <- srv.StreamWorkflowReplicationMessages(ss) }()
+					select {
+					case <-done:
+					case <-client.opened:
+						cancel()
+						select {
+						case <-done:
+						case <-time.After(5 * time.Second):
+						}
+					case <-time.After(5 * time.Second):
+					}
+					cancel()
+					stop()
+					client.mu.Lock()
+					attempts := append([]metadata.MD(nil), client.attempts...)
+					client.mu.Unlock()
+					want := fmt.Sprintf("md 7 %d 9 %d", s, (s-1)%count+1)
+					op := fmt.Sprintf("# openfault %s local=%d remote=%d inbound=%v s=%d attempts=%d", fault, local, remote, inbound, s, len(attempts))
+					e.Emit(op, "#")
+					e.Evals++
+					e.Count("openfault_" + fault)
+					for i, md := range attempts {
+						if got := mdString(md); got != want {
+							viol(fmt.Sprintf("LCM stream for shard %d (local=%d remote=%d inbound=%v), upstream fault %q: open attempt %d of %d carried %q, expected %q", s, local, remote, inbound, fault, i+1, len(attempts), got, want), op)
+							break
+						}
+					}
+					if len(attempts) == 0 {
+						viol(fmt.Sprintf("LCM stream for shard %d: the handler never tried to open the upstream stream", s), op)
+					}
+				}
+			}
+		}
 	}
 	e.Sample([]string{"lcm 4 6", "map 12 4 7", "e2estream 2 3 1 7 3 9 5", "e2edesc 2 3 1 0 2"})
 }
